@@ -927,3 +927,48 @@ CASES += [
                 let parsed_number = digits.parse().map_err(|e| {''', checks=['C05', 'C08'], control=False),
  dict(id='ite-shortcut-wrong-row', kind='fire', file=B, patch='../../seeded/C06-r9c/patch.diff', expect={'C06': 'ite'}, control=False),
 ]
+
+# tenth round of behaviour-preserving patches (bn36 the ROBDD core again, bn37 the CLI program, bn38 sets / truth-table entries / exporters,
+# bn39 the generators, bn40 both halves of the parser): 30 of 40 silent after the generalisations of DESIGN.md 15.8, ten known alarms
+_BN10 = {36: ['C01', 'C02', 'C03', 'C04', 'C05', 'C07', 'C13', 'C20'], 37: ['C07', 'C09', 'C10', 'C11', 'C12', 'C14', 'C20'], 38: ['C12', 'C13', 'C14', 'C19', 'C20'],
+         39: ['C15', 'C16', 'C17', 'C18'], 40: ['C01', 'C03', 'C04', 'C05', 'C06', 'C08', 'C09', 'C11']}
+_BN10_FILE = {36: B, 37: M, 38: IO, 39: G, 40: P}
+_BN10_KNOWN = {
+ 'bn37-02': 'the filter, the parsed formula and the column widths travel down the table printer in a new struct TruthTable: X2 / X3 follow the printer\'s parameters, not the fields of a record built at the call site (new abstraction, as in 15.2)',
+ 'bn37-05': '--export-ordering sorts borrowed (id, name) pairs by their first component and writes one assembled listing: X4 recognises the sort of the symbols by id and the print per name, not the projection to pairs',
+ 'bn39-01': 'the diagonal cells of n_queens come from a new iterator-returning helper diagonal_cells(start, step, len): engine N reads affine loop nests over numeric ranges',
+ 'bn39-02': 'the anti-diagonals walk (row, column) pairs from a zip of an ascending and a reversed range: not a numeric range for engine N',
+ 'bn39-06': 'the row and column families of sudoku_gen are emitted by one block inside a loop over a const array of fn pointers (LINE_KINDS): engine U does not evaluate function pointers taken from a table',
+ 'bn39-07': 'augment_colors precomputes a Vec of (coloured vertex, colour, original) records and destructures them in the pair loop: the guard atoms are stated over the records\' components, which the rule does not trace back to the two maps',
+ 'bn39-08': 'the directed candidates of generate_graph come from vertices.iter().take(i).chain(vertices.iter().skip(i + 1)): equivalent to the filter i != j, which is what the rule looks for',
+ 'bn40-02': 'tokenize classifies each regex capture into a new private enum Lexeme and matches on that: the token tables of engine T are read from the capture-group chain of tokenize (new abstraction)',
+ 'bn40-03': 'consuming the leading exists / forall / gfp / lfp keyword moves from the three parse functions into the arms of their caller: A3 states the provenance of a syntax node per parse function (keyword included); the grammar (A2) is unaffected',
+ 'bn40-07': 'new_with_env chains tokenize and parse with Result::and_then and a closure using `?`, returning (vars, formula): the value-provenance evaluator does not run closures that leave early',
+}
+for _k, _checks in _BN10.items():
+    for _n in range(1, 9):
+        _id = 'bn%d-%02d' % (_k, _n)
+        _file = {'bn38-01': S, 'bn38-02': S, 'bn38-03': 'src/truth_table.rs', 'bn38-07': PIO, 'bn38-08': PIO}.get(_id, _BN10_FILE[_k])
+        if _id in _BN10_KNOWN: CASES.append(dict(id=_id, kind='known-alarm', file=_file, patch=_id + '.diff', checks=_checks, control=False, why=_BN10_KNOWN[_id]))
+        else: CASES.append(dict(id=_id, kind='silent', file=_file, patch=_id + '.diff', checks=_checks, control=False))
+
+CASES += [
+ # every generalisation of round 10 with a twin that must fire, and the round-10 seeds that needed a new rule
+ dict(id='printer-branch-array-entries-swapped', kind='fire', file=M, patch='bn37-06.diff', old='let branches = [(r, TruthTableEntry::False), (l, TruthTableEntry::True)];', new='let branches = [(r, TruthTableEntry::True), (l, TruthTableEntry::False)];', expect={'C10': 'X1'}, control=False),
+ dict(id='row-line-last-bar-missing', kind='fire', file=M, patch='bn37-01.diff', old='''    line.push_str(&pad_right(outcome, widths[len]));
+    line.push_str(" |");''', new='''    line.push_str(&pad_right(outcome, widths[len]));''', expect={'C10': 'X12'}, control=False),
+ dict(id='headers-unzip-without-outcome-column', kind='fire', file=M, patch='bn37-08.diff', old='        .chain(std::iter::once("*".to_string()))\n', new='', expect={'C12': 'violation'}, control=False),
+ dict(id='report-tuple-match-wrong-row', kind='fire', file=M, patch='bn37-04.diff', old='        (false, _) => {}', new='        (false, _) => print_performance_results(&exec_times),', expect={'C12': 'violation'}, control=False),
+ dict(id='set-replace-with-wrong-operation', kind='fire', file=S, patch='bn38-02.diff', old='.replace_with(|current| self.env.and(Rc::clone(current), _other));', new='.replace_with(|current| self.env.or(Rc::clone(current), _other));', expect={'C19': 'violation'}, control=False),
+ dict(id='dot-edges-letelse-children-swapped', kind='fire', file=IO, patch='bn38-05.diff', old='self_edges.push((root.clone(), true, l.clone()));', new='self_edges.push((root.clone(), true, r.clone()));', expect={'C14': 'X1'}, control=False),
+ dict(id='parse-tree-chain-skips-right-list', kind='fire', file=PIO, patch='bn38-08.diff', old='.chain(a.iter().chain(b).flat_map(Self::nodes_recursive))', new='.chain(a.iter().flat_map(Self::nodes_recursive))', expect={'C14': 'X6'}, control=False),
+ dict(id='clique-listing-of-other-collection', kind='fire', file=C, patch='bn39-03.diff', old='let ordered: Vec<&String> = vertices.iter().collect();', new='let ordered: Vec<&String> = vertices.iter().skip(1).collect();', expect={'C16': 'violation'}, control=False),
+ dict(id='sudoku-symbols-from-raw-text', kind='fire', file=U, patch='bn39-05.diff', old='let symbols: Vec<char> = puzzle_input.chars().collect();', new='let symbols: Vec<char> = puzzle_input.chars().rev().collect();', expect={'C17': 'hint'}, control=False),
+ dict(id='parser-and-then-skips-then-keyword', kind='fire', file=P, patch='bn40-08.diff', old='''        let then = expect(SymbolicBDDToken::Then, tokens)
+            .and_then(|()| Self::parse_sub_formula(tokens))?;''', new='''        let then = expect(SymbolicBDDToken::Else, tokens)
+            .and_then(|()| Self::parse_sub_formula(tokens))?;''', expect={'C08': 'violation'}, control=False),
+ dict(id='parser-generic-reader-expect-inverted', kind='fire', file=P, patch='bn40-01.diff', old='        &Some(t) if *t == token => Ok(()),', new='        &Some(t) if *t != token => Ok(()),', expect={'C08': 'helper shape'}, control=False),
+ dict(id='vars-listing-names-from-full-list', kind='fire', file=M, patch='../../seeded/C09-r10a/patch.diff', expect={'C09': 'names on the line'}, control=False),
+ dict(id='vars-field-from-parse-tree', kind='fire', file=P, patch='../../seeded/C09-r10b/patch.diff', expect={'C09': 'full variable list'}, control=False),
+ dict(id='set-contains-scratch-environment', kind='fire', file=S, patch='../../seeded/C13-r10b/patch.diff', expect={'C13': 'E10', 'C19': 'E10'}, control=False),
+]
